@@ -342,6 +342,7 @@ func runC01Idx(c *Ctx) {
 					d = "[" + lo + ":" + hi + "]"
 				}
 				c.bad(construct, in.Pos(), symName(x)+d+" is not provably in bounds (no dominating length test, loop bound or constant size): an out-of-range value panics")
+				c01IdxCallers(c, fn, construct, in, x, idx, low, high)
 			}
 		})
 	}
